@@ -10,7 +10,7 @@ One run of one check =
      (driver); canonical outputs are diffed; first divergence is shrunk and written as a replay
   6. known findings replayed, evidence written, exit code
 """
-import fcntl, hashlib, json, os, random, re, subprocess, sys, time
+import fcntl, hashlib, json, os, random, re, shutil, subprocess, sys, time
 
 ROOT = os.environ.get("VERIF_ROOT") or os.path.dirname(os.path.dirname(os.path.abspath(__file__)))   # relocatable (private copies of sub-agents)
 LEAN = f"{ROOT}/lean"
@@ -34,6 +34,8 @@ class Ctx:
         self.rng = random.Random(self.seed * 1000003 + sum(map(ord, pid)))
         self.t0 = time.time()
         self.work = f"{WORK}/{pid}"
+        # nothing of an earlier run (in particular of a run on a modified tree) may be read by this one
+        shutil.rmtree(self.work, ignore_errors=True)
         os.makedirs(self.work, exist_ok=True)
         os.makedirs(f"{ROOT}/evidence", exist_ok=True)
         os.makedirs(f"{ROOT}/replays/{pid}", exist_ok=True)
